@@ -1,7 +1,7 @@
 INIT Init
 NEXT Next
 CONSTANTS
-  SubPool <- Pool4
+  SubPool <- PoolW
   GenKind = "multiset"
   MaxSide = 2
   Orders = {1, 2}
